@@ -11,6 +11,7 @@ import (
 	"runtime"
 	"strings"
 	"sync/atomic"
+	"time"
 )
 
 type replayFile struct {
@@ -141,6 +142,11 @@ func Stop()              { panic(Stopped{}) }
 func Symbolic() bool     { return false }
 func Concrete(x int) int { return x }
 func Steps() int         { return 0 }
+
+var startTime = time.Now()
+
+// Now returns the (virtual) clock in nanoseconds.
+func Now() int64 { return int64(time.Since(startTime)) }
 func ThreadID() int      { return 0 }
 func Yield()             { runtime.Gosched() }
 
